@@ -10,6 +10,7 @@
 //   crashc <dir>              start the node from <dir> again and print what it sees
 use crate::node::{drain_rx, resp_str};
 use crate::util::*;
+use std::convert::TryInto;
 use futures::channel::mpsc::{channel, Receiver, Sender};
 use futures::task::noop_waker;
 use nundb::bo::*;
@@ -89,9 +90,16 @@ fn say(s: &str) {
     l.flush().unwrap();
 }
 
+/// run segment `seg` (0-based; segments are separated by `---` lines) of the case in a process
+/// of its own, on the directory the earlier segments left behind
 pub fn run_b(path: &str, dir: &str, part: &str) {
     let cases = read_cases(path);
     let case = &cases[0];
+    let seg: usize = match part {
+        "A" => 0,
+        "B" => 1,
+        s => s.parse().unwrap(),
+    };
     print_load_order(dir);
     let mut st = match startup(dir) {
         Ok(s) => s,
@@ -100,26 +108,26 @@ pub fn run_b(path: &str, dir: &str, part: &str) {
             return;
         }
     };
-    say(&format!("START valid={}", if st.was_valid { 1 } else { 0 }));
+    let loaded = {
+        let m = st.dbs.map.read().unwrap();
+        let mut v: Vec<String> = m.keys().filter(|k| k.as_str() != "$admin").map(|k| esc(k.as_bytes())).collect();
+        v.sort();
+        v.join(",")
+    };
+    say(&format!("START valid={} dbs={}", if st.was_valid { 1 } else { 0 }, loaded));
     // the replication thread opens the oplog and the flag file at its first poll
     poll(&mut st.repl);
     let mut sessions: Vec<(Client, Receiver<String>)> = Vec::new();
-    let mut in_b = false;
+    let mut cur = 0usize;
     for op in &case.ops {
         if op[0] == "---" {
-            in_b = true;
-            if part == "A" {
-                break;
-            }
-            say("B");
+            cur += 1;
             continue;
         }
-        // part B replays the session set-up of part A (connections are per process), marked with '+'
-        let setup = op[0].starts_with('+');
+        if cur != seg {
+            continue;
+        }
         let name = op[0].trim_start_matches('+');
-        if part == "B" && !in_b && !setup {
-            continue;
-        }
         let res = match name {
             "conn" => {
                 sessions.push(Client::new_empty_and_receiver());
@@ -150,6 +158,7 @@ pub fn run_b(path: &str, dir: &str, part: &str) {
                 }
             }
             "shutdown" => {
+                eprintln!("#flush");
                 let dbs = st.dbs.clone();
                 match std::panic::catch_unwind(std::panic::AssertUnwindSafe(|| nundb::db_ops::safe_shutdown(&dbs))) {
                     Ok(_) => "Shutdown".to_string(),
@@ -204,27 +213,28 @@ pub fn run_c(dir: &str) {
                     v.sort();
                     out.push_str(&format!(" dbids=[{}]", v.join(",")));
                 }
-                // every oplog record, decoded through the restarted node's maps
-                let recs = read_operations_since(0);
+                // every oplog record (raw), decoded through the restarted node's maps
                 let idk = st.dbs.id_keys_map.read().unwrap();
                 let idn = st.dbs.id_name_db_map.read().unwrap();
-                let mut v: Vec<(u64, String)> = recs
-                    .values()
-                    .map(|r| {
-                        let dbn = idn.get(&r.db).map(|s| esc(s.as_bytes())).unwrap_or("?".to_string());
-                        let key = match r.opp.to_u8() {
-                            0 | 1 => idk.get(&r.key).map(|s| esc(s.as_bytes())).unwrap_or("?".to_string()),
-                            _ => "-".to_string(),
-                        };
-                        (r.timestamp, format!("{}:{}/{}:{}", r.timestamp, dbn, key, r.opp.to_u8()))
-                    })
-                    .collect();
-                v.sort();
-                out.push_str(&format!(
-                    " oplog=[{}] last={}",
-                    v.into_iter().map(|x| x.1).collect::<Vec<String>>().join(","),
-                    Oplog::last_op_time()
-                ));
+                let raw = std::fs::read(Oplog::get_op_log_file_name()).unwrap_or_default();
+                let mut recs: Vec<String> = Vec::new();
+                let mut last: u64 = 0;
+                for ch in raw.chunks(25) {
+                    if ch.len() < 25 {
+                        recs.push(format!("TORN{}", ch.len()));
+                        continue;
+                    }
+                    let time = u64::from_le_bytes(ch[0..8].try_into().unwrap());
+                    let key = u64::from_le_bytes(ch[8..16].try_into().unwrap());
+                    let db = u64::from_le_bytes(ch[16..24].try_into().unwrap());
+                    let op = ch[24];
+                    let dbn = idn.get(&db).map(|s| esc(s.as_bytes())).unwrap_or("?".to_string());
+                    let kn = if op <= 1 { idk.get(&key).map(|s| esc(s.as_bytes())).unwrap_or("?".to_string()) } else { "-".to_string() };
+                    recs.push(format!("{}:{}:{}:{}>{}/{}", time, key, db, op, dbn, kn));
+                    last = time;
+                }
+                let _ = last;
+                out.push_str(&format!(" oplog=[{}] last={}", recs.join(","), Oplog::last_op_time()));
                 // databases
                 let map = st.dbs.map.read().unwrap();
                 let mut names: Vec<&String> = map.keys().collect();
